@@ -51,14 +51,29 @@ func streamCase(m []byte, cuts []int, want [16]byte) {
 	p, v, st := mon.Guard(func() {
 		h := md4.New()
 		prev := 0
+		// every other case hands the chunks over in one scratch buffer that is overwritten after
+		// each Write, as a read loop does: what was written is what counts
+		scratch := make([]byte, 0, len(m)+1)
+		reuse := (len(m)+len(cuts))%2 == 1
+		feed := func(b []byte) (int, error) {
+			if !reuse {
+				return h.Write(b)
+			}
+			buf := append(scratch[:0], b...)
+			n, err := h.Write(buf)
+			for i := range buf {
+				buf[i] = 0xA5
+			}
+			return n, err
+		}
 		for _, c := range cuts {
-			n, err := h.Write(m[prev:c])
+			n, err := feed(m[prev:c])
 			if n != c-prev || err != nil {
 				r.Violation("md4.Write:return", fmt.Sprintf("Write returned (%d,%v) for %d bytes", n, err, c-prev), nil)
 			}
 			prev = c
 		}
-		h.Write(m[prev:])
+		feed(m[prev:])
 		got = h.Sum()
 	})
 	r.Eval(1)
@@ -471,6 +486,28 @@ func hashes() {
 			}
 			checkPw(pw, u, rounds, fmt.Sprintf("fixed|%d|%d|%d", len(pw), len(u), rounds))
 			i++
+		}
+	}
+	// requests whose parts run into each other when written side by side: an iteration count
+	// followed by a user name that starts with digits ("10240"+"bob" = "1"+"0240bob"), a user name
+	// that ends where the password begins; asked one after the other in one process
+	for _, pw := range []string{"Passw0rd!", "1", ""} {
+		for _, pair := range [][2]struct {
+			rounds int
+			user   string
+		}{{{10240, "bob"}, {1, "0240bob"}}, {{1, "0240bob"}, {10240, "bob"}}, {{1, "7alice"}, {17, "alice"}}, {{102, "40bob"}, {1024, "0bob"}}, {{10, "0"}, {100, ""}}, {{2, "1x"}, {21, "x"}}} {
+			for _, q := range pair {
+				rounds := q.rounds
+				if r.Quick() && rounds > 1100 && pw != "Passw0rd!" {
+					continue
+				}
+				checkPw(pw, q.user, rounds, fmt.Sprintf("adjacent-parts|%d|%s|%d", rounds, q.user, len(pw)))
+			}
+		}
+	}
+	for _, pair := range [][2][2]string{{{"ab", "cuser"}, {"abc", "user"}}, {{"", "pwuser"}, {"pw", "user"}}, {{"pw:", "user"}, {"pw", ":user"}}} {
+		for _, q := range pair {
+			checkPw(q[0], q[1], 3, "adjacent-parts|pw-user")
 		}
 	}
 	n := r.Pick(4000, 150000)
